@@ -270,6 +270,9 @@ func (p *Program) VerifyFunction(id string) (res *FuncResult) {
 			e.curPos = p
 		}
 		for i, en := range c.Ensures {
+			if en.Kind == "trusted_ensures" {
+				continue // assumed at call sites, not checked against the body (listed as assumption)
+			}
 			env := e.newEnv(nil, x.st)
 			env.bind = post
 			env.old = e.old
@@ -314,6 +317,9 @@ func (p *Program) VerifyFunction(id string) (res *FuncResult) {
 				}
 			}
 			ws := p.globalWriters(gi.Pkg, gi.Global)
+			if gi.VarOnly {
+				ws = p.globalVarWriters(gi.Pkg, gi.Global)
+			}
 			o := e.oblige("globalinv", "globalinv.immutable."+gi.Global, "package variable "+gi.Global+" is written only by the package initialiser (writers: "+strings.Join(ws, ", ")+")", True, BoolLit(len(ws) == 0), gi.Clause)
 			if o != nil {
 				o.Props = gi.Clause.Props
@@ -343,6 +349,35 @@ func (p *Program) VerifyFunction(id string) (res *FuncResult) {
 		for k, x := range exits {
 			e.checkFrameAt(fn, fc, bind, k+1, x)
 		}
+	}
+	if fc != nil && fc.NoGlobals {
+		e.curPos = fn.Pos()
+		seen := map[string]bool{}
+		var scan func(f *ssa.Function, depth int)
+		scan = func(f *ssa.Function, depth int) {
+			if f == nil || f.Blocks == nil || depth > 3 {
+				return
+			}
+			for _, b := range f.Blocks {
+				for _, in := range b.Instrs {
+					switch x := in.(type) {
+					case *ssa.UnOp:
+						if g, ok := x.X.(*ssa.Global); ok && strings.HasPrefix(g.Pkg.Pkg.Path(), modulePath) && !strings.HasPrefix(g.Name(), "init$") {
+							if ws := p.globalWriters(g.Pkg.Pkg.Name(), g.Name()); len(ws) > 0 && !seen[g.Name()] {
+								seen[g.Name()] = true
+								o := e.oblige("noglobals", "noglobals@"+g.Pkg.Pkg.Name()+"."+g.Name(), "reads package-level variable "+g.Name()+", which is shared by every validator instance in the process (written by "+strings.Join(ws, ", ")+")", True, False, &Clause{Kind: "noglobals", Text: "noglobals", Src: fc.Src})
+								_ = o
+							}
+						}
+					case ssa.CallInstruction:
+						if callee, ok := x.Common().Value.(*ssa.Function); ok && p.isRepoFunc(callee) && p.lookupContract(p.FuncIDOf(callee)) == nil {
+							scan(callee, depth+1)
+						}
+					}
+				}
+			}
+		}
+		scan(fn, 0)
 	}
 	res.Obls = e.obls
 	res.GoTargets = e.goTargets
@@ -592,6 +627,7 @@ func (e *Engine) monitorEnter(st *State, reach Term, m Term, write bool) {
 			}
 			st.havocPrefix([]string{"G." + o.pkg + "." + g + "."}, false)
 		}
+		e.reassumeGlobals(st)
 	}
 }
 
